@@ -67,6 +67,8 @@ CHECK_REJECT_ORDERID = True  # a cancel reject must carry the OrderID of the ord
 # (depth, last level whose states also emit arbitrary accepted reports as leaf states, state budget) of the fabrication BFS; script length of the fidelity part
 A_QUICK, A_THOROUGH = (5, -1, 400), (7, 2, 3000)
 AU_QUICK, AU_THOROUGH = 1, 3  # BFS depth of the second pass with the non-ASCII order
+AM_THOROUGH = 5  # thorough: full BFS depth for the market-order subclass (quick: directed chains, see SPINES)
+HAND_ORDER_ID = "X77"  # OrderID of the hand-made acknowledgement (profile "resession")
 B_QUICK, B_THOROUGH = 5, 6
 # other public state-touching helper methods as chain ops: states of level <= these bounds also emit the state after
 # reset_messages() / after registering a second order as a leaf state (full grid, not extended): (reset, second order)
@@ -184,6 +186,9 @@ class Track:
         self.finished = False
         self.reset_after_report = False  # reset_messages() was called after at least one report was fabricated
         self.second = None  # a second order registered with the same helper
+        self.sessions = 1  # helper instances the order has been handled by (op "newft")
+        self.hand_acked = False  # acknowledged by hand-made reports, never by a helper (op "hand_ack")
+        self.first_seen_by_request = False  # this helper instance got to know the order through fix_cxl/rep_request
 
     def clone(self):
         t = Track(self.price)
@@ -191,11 +196,14 @@ class Track:
         t.order_id, t.reqs, t.qty = self.order_id, dict(self.reqs), self.qty
         t.cum, t.leaves, t.pending, t.finished = self.cum, self.leaves, self.pending, self.finished
         t.reset_after_report, t.second = self.reset_after_report, self.second
+        t.names = getattr(self, "names", None)
+        t.sessions, t.hand_acked, t.first_seen_by_request = self.sessions, self.hand_acked, self.first_seen_by_request
         return t
 
     def model_key(self):
         return (float(self.qty), float(self.price), float(self.cum), float(self.leaves), self.pending, self.finished,
-                self.reset_after_report, self.second is not None)
+                self.reset_after_report, self.second is not None, self.sessions, self.hand_acked,
+                self.first_seen_by_request)
 
     def after_report(self, op):
         _, cl, et, st, cum, lv, last, px, oq, orig = op
@@ -267,10 +275,73 @@ def new_state(names):
     from asyncfix import FIXTester
     from asyncfix.protocol.order_single import FIXNewOrderSingle
 
-    root, ticker, side, price, account = names
+    root, ticker, side, price, account = names[:5]
     ft = FIXTester(schema=None)
-    o = FIXNewOrderSingle(root, ticker, side=side, price=price, qty=QTY_A, account=account)
+    if profile_of(names).startswith("market"):
+        o = market_class()(root, ticker, side=side, price=price, qty=QTY_A, account=account, ord_type="1")
+    else:
+        o = FIXNewOrderSingle(root, ticker, side=side, price=price, qty=QTY_A, account=account)
     return ft, o, Track(price)
+
+
+def profile_of(names):
+    return names[5] if len(names) > 5 else "limit"
+
+
+def market_class():
+    """Order subclass using the documented set_price_qty() hook to leave Price out (market order)."""
+    if "market" not in _G:
+        from asyncfix import FTag
+        from asyncfix.protocol.order_single import FIXNewOrderSingle
+
+        class MarketOrder(FIXNewOrderSingle):
+            def set_price_qty(self, ord_msg, price, qty):
+                ord_msg[FTag.OrderQty] = qty
+
+        G()["market"] = MarketOrder
+    return _G["market"]
+
+
+def hand_report(o, names, exec_id, et, st, leaves):
+    """Execution report written by hand (not by the helper) for the order's current ClOrdID."""
+    from asyncfix import FIXMessage, FMsg
+
+    return FIXMessage(FMsg.EXECUTIONREPORT, {11: o.clord_id, 37: HAND_ORDER_ID, 17: exec_id, 150: et, 39: st,
+                                             54: names[2], 55: names[1], 38: QTY_A, 44: names[3], 151: leaves,
+                                             14: 0, 6: 0})
+
+
+# ---- directed chains (profiles with a spine): only these ops extend a chain
+def _is_rep_qty(op):
+    return op[0] == "rep" and op[1] is None and op[2] is not None
+
+
+def spine_market(tr, path, op):
+    if op[0] == "cxl" or _is_rep_qty(op) or op[0] == "rej":
+        return True
+    if op[0] == "er":
+        _, cl, et, st, cum, lv, last, px, oq, orig = op
+        return (et == "5" and st == "0" and cl == "cur" and cum is None and last is None and px is None
+                and oq is not None and lv == oq - tr.cum and orig is None)
+    return False
+
+
+def spine_resession(tr, path, op):
+    return op[0] == "cxl" or _is_rep_qty(op)
+
+
+ACK_CHAIN = [["new"], ["reg"], ["er", "cur", "A", "A", None, None, None, None, None, None],
+             ["er", "cur", "0", "0", None, QTY_A, None, None, None, None]]
+# profile -> (spine predicate, root paths, depth below the roots)
+SPINES = {
+    "market": (spine_market, [ACK_CHAIN], 2),
+    "resession": (spine_resession, [ACK_CHAIN + [["newft"]], [["hand_ack"]]], 1),
+}
+
+
+def on_spine(names, tr, path, op):
+    sp = SPINES.get(profile_of(names))
+    return sp is None or sp[0](tr, path, op)
 
 
 def _f(x):
@@ -322,10 +393,30 @@ def apply_op(ft, o, tr, op):
             tr.reset_after_report = True
         if o2 is not None:
             tr.second = o2
+    elif k == "newft":
+        # a second session: a fresh helper instance meets an order acknowledged through the earlier one
+        from asyncfix import FIXTester
+
+        ft = FIXTester(schema=None)
+        tr.exec_ids = set()  # ExecIDs are per helper instance
+        tr.reqs = {}
+        tr.sessions += 1
+    elif k == "hand_ack":
+        # the order is sent and acknowledged by hand-made reports; the helper has not seen it yet
+        o.new_req()
+        for eid, et, st, lv in (("h1", "A", "A", 0), ("h2", "0", "0", QTY_A)):
+            o.process_execution_report(hand_report(o, tr.names, eid, et, st, lv))
+        tr.order_id = HAND_ORDER_ID
+        tr.leaves = QTY_A
+        tr.hand_acked = True
     elif k == "cxl":
+        if o.clord_id not in ft.registered_orders:
+            tr.first_seen_by_request = True
         tr.reqs["F"] = ft.fix_cxl_request(o)
         tr.pending = "F"
     elif k == "rep":
+        if o.clord_id not in ft.registered_orders:
+            tr.first_seen_by_request = True
         tr.reqs["G"] = ft.fix_rep_request(o, _f(op[1]), _f(op[2]))
         tr.pending = "G"
     elif k == "rej":
@@ -342,12 +433,14 @@ def apply_op(ft, o, tr, op):
         tr.after_report(op)
     else:
         raise HarnessError(f"unknown op {op}")
+    return ft
 
 
 def build(names, path):
     ft, o, tr = new_state(names)
+    tr.names = names
     for op in path:
-        apply_op(ft, o, tr, op)
+        ft = apply_op(ft, o, tr, op)
     return ft, o, tr
 
 
@@ -541,7 +634,7 @@ def expand_er(item):
         if len(firsts) < PROBE_REPORTS:
             firsts.append((op, r[1]))
         wild = not plausible(tr, op)
-        if wild_left < 0 or (wild and wild_left == 0):
+        if wild_left < 0 or (wild and wild_left == 0) or not on_spine(names, tr, path, op):
             continue
         oc, oid = r
         tr2 = tr.clone()
@@ -625,7 +718,7 @@ def expand_misc(item):
         ft2, o2, tr2 = build(names, path)
         acc.calls += 1
         try:
-            apply_op(ft2, o2, tr2, op)
+            ft2 = apply_op(ft2, o2, tr2, op)
         except AssertionError:
             acc.refused_assert += 1
             continue
@@ -634,7 +727,7 @@ def expand_misc(item):
             continue
         acc.accepted += 1
         acc.outcomes.add((op[0], str(o2.status)))
-        if wild_left >= 0:
+        if wild_left >= 0 and on_spine(names, tr, path, op):
             acc.add_succ(state_key(ft2, o2, tr2), op, False)
     # the helper's other state-touching methods as chain ops (leaf states)
     if wild_left >= 0:
@@ -673,7 +766,9 @@ def expand_misc(item):
             for cause in validity(m, "cancel_reject"):
                 acc.v(f"valid_dictionary|{cause}", CL_VALID, dict(info, complaint=cause), rep)
             if CHECK_REJECT_ORDERID and tr2.order_id is not None and d.get("37") != tr2.order_id:
-                acc.v("orderid_stable|cancel_reject_differs_from_execution_reports", CL_OID,
+                how = ("cancel_reject_for_order_this_helper_first_saw_through_a_request" if tr2.first_seen_by_request
+                       else "cancel_reject_differs_from_execution_reports")
+                acc.v(f"orderid_stable|{how}", CL_OID,
                       dict(info, expected=tr2.order_id, observed=d.get("37")), rep)
             try:
                 r = o2.process_cancel_rej_report(m)
@@ -684,7 +779,7 @@ def expand_misc(item):
                       dict(info, exception=f"{type(e).__name__}: {e}"), rep)
                 continue
             wild = not plausible_reject(tr, kind, st)
-            if wild_left < 0 or (wild and wild_left == 0):
+            if wild_left < 0 or (wild and wild_left == 0) or not on_spine(names, tr, path, op):
                 continue
             tr2.pending = None
             acc.add_succ(state_key(ft2, o2, tr2), op, wild)
@@ -778,13 +873,23 @@ def fold(ctx, totals, res):
         ctx.outcomes.add(tuple(oc))
 
 
-def run_a(ctx, names, depth, wild_levels, max_states):
+def run_a(ctx, names, depth, wild_levels, max_states, roots=([],)):
     """Level-synchronous BFS.  States of level <= wild_levels also emit every other accepted
     report / reject as a leaf state (expanded with the full grid, not extended)."""
-    ft, o, tr = build(names, [])
-    seen = {state_key(ft, o, tr): []}
+    seen = {}
+    frontier = []
+    for root in roots:
+        try:
+            ft, o, tr = build(names, root)
+        except HarnessError:
+            raise
+        except Exception as e:  # reported where the chain is explored op by op (main BFS)
+            ctx.notes.append(f"(a) directed chain {root} of profile {profile_of(names)} could not be built: {type(e).__name__}")
+            ctx.outcomes.add(("root_not_buildable", profile_of(names), type(e).__name__))
+            continue
+        seen[state_key(ft, o, tr)] = list(root)
+        frontier.append((list(root), 1 if wild_levels >= 0 else 0))
     extendable = set(seen)  # keys enqueued as chain states (not only as leaves)
-    frontier = [([], 1 if wild_levels >= 0 else 0)]
     totals = {}
     levels = []
     expanded = 0
@@ -841,6 +946,18 @@ def run(ctx):
     for k, v in tu.items():
         totals[k] = totals.get(k, 0) + v
     expanded += expanded_u
+    levels_x = {}
+    extra = [("resession", names + ("resession",)) + SPINES["resession"][1:]]
+    if ctx.quick:
+        extra.append(("market", names + ("market",)) + SPINES["market"][1:])
+    else:
+        extra.append(("market_full", names + ("market_full",), [[]], AM_THOROUGH))
+    for prof, nm, roots, dpt in extra:
+        tx, lv_x, exp_x, _unx, _sx = run_a(ctx, nm, dpt, -1, max_states, roots=roots)
+        for k, v in tx.items():
+            totals[k] = totals.get(k, 0) + v
+        expanded += exp_x
+        levels_x[prof] = lv_x
     fold(ctx, totals, run_session(names).pack())
     # ---- (b) fidelity
     fb = c20_world.run_fidelity(ctx, blen)
@@ -866,7 +983,8 @@ def run(ctx):
                   "a_reset_messages_and_second_order_leaves_from_levels_upto": list(HELPER_LEAF),
                   "a_helper_method_probes": "after every grid slice: reset_messages / register again / register a second "
                                             f"order, then {PROBE_REPORTS} reports re-fabricated and judged against the whole history",
-                  "a_states_per_level": levels, "a_non_ascii_order_states_per_level": levels_u, "a_states_expanded": expanded,
+                  "a_states_per_level": levels, "a_non_ascii_order_states_per_level": levels_u,
+                  "a_directed_profiles_states_per_level": levels_x, "a_states_expanded": expanded,
                   "a_states_found_not_expanded": unexpanded,
                   "grid": "17 x 14 x {nan,0,q/2,q} x {nan,0,E/2,E,E-cum} x {nan,q/2,q,cum-cum0} x {nan,p+1} x {nan,q'} x "
                           "own ClOrdIDs x {None,id}", "quantities": [QTY_A, QTY_B],
